@@ -26,7 +26,7 @@ RULE = ('task histories: 0-40 tasks, each ok / failing (Exception or BaseExcepti
 ASSUMPTIONS = ['tasks are shorter than flush\'s own 10 s per-task wait', 'a refused post-close submission may raise any exception type']
 REQUIRE = {'tasks_tracked': 2000, 'flushes_checked': 300, 'flush_with_running_failure': 80, 'sends_checked': 1500,
            'failed_sends': 100, 'unconvertible': 100, 'post_close_submits': 200, 'yield_points': 2000,
-           'submits_during_flush': 30, 'twin_handler_flushes': 40, 'backlog_flushes': 1, 'flushes_over_a_draining_queue': 8,
+           'submits_during_flush': 30, 'twin_handler_flushes': 40, 'backlog_flushes': 1, 'flushes_over_a_draining_queue': 8, 'tasks_submitting_during_flush': 2,
            'concurrent_second_flushes': 20, 'racing_submitters': 60,
            'bursts_of_baseexception_tasks': 10, 'handovers_to_a_closed_pool': 40}
 
@@ -444,6 +444,40 @@ def case_drain(seed, out, spec):
             _close(h)
             out.count('tasks_tracked', n)
             out.count('flushes_over_a_draining_queue')
+        # a running task hands in follow-up work while flush is waiting for it (accepted or refused - either way the
+        # task itself is finished when flush returns, and flush does not sit out its per-task wait)
+        h = TaskHandler()
+        started, go, fin = threading.Event(), threading.Event(), []
+
+        def chatty():
+            started.set()
+            go.wait(5)
+            try:
+                h.submit_task(fin.append, 'follow-up')
+            except BaseException:  # noqa
+                fin.append('refused')
+            fin.append('done')
+
+        h.submit_task(chatty)
+        started.wait(5)
+        raised = []
+        t = threading.Thread(target=lambda: _flush_into(h, raised), name='vf-drain-flush2')
+        t.start()
+        time.sleep(0.1)
+        go.set()
+        t.join(40)
+        if t.is_alive():
+            out.inconc('C09 drain: flush did not return within the watchdog (task submitting follow-up work)')
+        elif raised:
+            out.violation('flush:raised', 'flush() raised %r while a running task handed in follow-up work' % (raised[0],),
+                          {'finished': fin}, replay_spec(spec, seed))
+        elif 'done' not in fin:
+            out.violation('flush:returned-early', 'flush() returned while the task that handed in follow-up work during '
+                                                  'the flush was still running (%r)' % (fin,), {'finished': fin},
+                          replay_spec(spec, seed))
+        else:
+            out.count('tasks_submitting_during_flush')
+        _close(h)
     finally:
         sys.setswitchinterval(old)
     out.case({'drain': seed}, nontrivial=True, sample={'rounds': 4})
